@@ -340,6 +340,27 @@ def sc_pipe_eof(env):
     return out
 
 
+def w_pipe_torn(conn, env):
+    env.send_half_and_die(conn, "x" * 50000)
+
+
+def sc_pipe_eof_inside_message(env):
+    """the only writer dies in the middle of a message: recv() raises OSError, it does not block"""
+    a, b = env.mp.Pipe(duplex=False)
+    p = env.mp.Process(target=w_pipe_torn, args=(b, env))
+    p.start()
+    b.close()
+    try:
+        a.recv()
+        res = "returned"
+    except EOFError:
+        res = "EOFError"
+    except OSError:
+        res = "OSError"
+    p.join()
+    return {"recv": res, "code": p.exitcode}
+
+
 def w_sq_child(q, n):
     for i in range(n):
         q.put(i)
@@ -435,7 +456,7 @@ SCENARIOS = [
     sc_normal_exit, sc_exception_flushes, sc_sys_exit_3, sc_sigkill_prefix, sc_get_timeout_empty, sc_per_worker_fifo,
     sc_dead_means_flushed, sc_exitcode_while_alive, sc_terminate, sc_join_before_drain_big, sc_killed_holding_lock,
     sc_torn_frame_blocks_get, sc_pool_map, sc_pool_exception, sc_pool_worker_killed, sc_pool_sys_exit_in_task, sc_pool_close_join,
-    sc_pipe_eof, sc_simplequeue, sc_condition_turns, sc_joinable_queue, sc_reader_lock_leak,
+    sc_pipe_eof, sc_simplequeue, sc_condition_turns, sc_joinable_queue, sc_reader_lock_leak, sc_pipe_eof_inside_message,
 ]
 
 
@@ -480,6 +501,14 @@ class RealEnv:
 
     def wait_blocked_in_get(self, proc, kind=None):
         time.sleep(0.5)
+
+    def send_half_and_die(self, conn, payload):
+        import pickle
+        import struct
+
+        data = pickle.dumps(payload)
+        os.write(conn.fileno(), struct.pack("!i", len(data)) + data[: len(data) // 2])
+        os.kill(os.getpid(), signal.SIGKILL)
 
     def blocks_forever(self, fn, wall):
         import threading
@@ -568,6 +597,20 @@ class SimEnv:
         victim = int(name.split("-")[1]) - 1
         ft = simmp.KillFault(victim, ["feeder", 0, "partial" if torn else "locked"], -9, False)
         self.world.faults.append(ft)
+
+    def send_half_and_die(self, conn, payload):
+        from sim import simmp
+
+        proc = self.world.current_proc()
+        # a kill fault while the frame is partly written
+        orig_buf = self.world.pipe_buf
+        self.world.pipe_buf = 64  # make the message non-atomic so that a partial state exists
+        self.world.faults.append(simmp.KillFault(proc.ordinal, ["op", proc.task.nops + 1], -9, False))
+        proc.faults.append(self.world.faults[-1])
+        try:
+            conn.send(payload)
+        finally:
+            self.world.pipe_buf = orig_buf
 
     def wait_blocked_in_get(self, proc, kind="get"):
         from sim.kernel import Op
